@@ -120,6 +120,12 @@ Theorem C15_dxf_save_order_preserved : forall mesh : list seg, save_dxf mesh = m
 Proof. exact save_dxf_spec. Qed.
 Print Assumptions C15_dxf_save_order_preserved.
 
+(* the object API (NewDXF, DXF.Lines, Save) writes the same entities *)
+Theorem C15_dxf_object_order_preserved : forall batches : list (list seg),
+  dxf_object_lines batches = map dxf_spec (concat batches).
+Proof. exact dxf_object_lines_spec. Qed.
+Print Assumptions C15_dxf_object_order_preserved.
+
 (* ------------------------------------------------------------------ SVG *)
 (* The bounds kept by SVG.Line are the extremes of all end points. *)
 Theorem C15_svg_bounds_extremes : forall mesh : list seg, mesh <> [] ->
